@@ -90,7 +90,7 @@ def convert(abbr: TokenGroup, params={}):
     result = Abbreviation()
     result.children = convert_group(abbr, state)
 
-    if text is not None and not state._text_inserted:
+    if text is not None and not state._text_inserted and result.children:
         # Text given but no implicitly repeated elements: insert it into deepest child
         deepest = deepest_node(result.children[-1])
         if deepest:
